@@ -308,12 +308,14 @@ class FoldedData:
             np.arange(self.nsubbands, dtype=np.float64) * chan_width + self.header.fch1
         )
         tsamp = self.period / self.nbins
-        drifts = params.compute_dmdelays(
-            freqs,
-            delta_dm,
-            tsamp,
-            self.header.fch1,
-            in_samples=True,
+        drifts = np.atleast_1d(
+            params.compute_dmdelays(
+                freqs,
+                delta_dm,
+                tsamp,
+                self.header.fch1,
+                in_samples=True,
+            ),
         )
         bin_drifts = drifts - self._fph_shifts
         self._fph_shifts = drifts
